@@ -45,3 +45,22 @@ func HasNegZero(obj any) bool {
 	walk(reflect.ValueOf(obj), 0)
 	return found
 }
+
+// onlyNegZeroDiffs: a and b have equal length and differ only where a has the sign byte 0x80 of a negative-zero
+// float (preceded by at least three zero bytes) and b has 0x00 (finding F24).
+func onlyNegZeroDiffs(a, b []byte) bool {
+	if len(a) != len(b) {
+		return false
+	}
+	n := 0
+	for i := range a {
+		if a[i] == b[i] {
+			continue
+		}
+		if a[i] != 0x80 || b[i] != 0 || i < 3 || a[i-1] != 0 || a[i-2] != 0 || a[i-3] != 0 {
+			return false
+		}
+		n++
+	}
+	return n > 0
+}
